@@ -1301,10 +1301,19 @@ impl TypeChecker {
                 Name(name)
             }
             (Var(a), b) => {
+                // A type variable cannot be bound to a type that contains
+                // that same variable (e.g. `x.push(x)` for a list `x`).
+                // That type would be infinite.
+                if self.occurs(a, &b) {
+                    return None;
+                }
                 self.type_info.unionfind.set(a, b.clone());
                 b.clone()
             }
             (a, Var(b)) => {
+                if self.occurs(b, &a) {
+                    return None;
+                }
                 self.type_info.unionfind.set(b, a.clone());
                 a.clone()
             }
@@ -1364,6 +1373,24 @@ impl TypeChecker {
                 return None;
             }
         })
+    }
+
+    /// Check whether the type variable `var` occurs in the type `ty`
+    fn occurs(&mut self, var: usize, ty: &Type) -> bool {
+        match self.resolve_type(ty) {
+            Type::Var(x) => x == var,
+            Type::Name(name) => {
+                name.arguments.iter().any(|ty| self.occurs(var, ty))
+            }
+            Type::Record(fields) | Type::RecordVar(_, fields) => {
+                fields.iter().any(|(_, ty)| self.occurs(var, ty))
+            }
+            Type::Function(params, ret) => {
+                params.iter().any(|ty| self.occurs(var, ty))
+                    || self.occurs(var, &ret)
+            }
+            _ => false,
+        }
     }
 
     fn unify_intvars(
